@@ -66,6 +66,7 @@ class Root:
     av: Optional[object] = field(default=None, metadata={"type": "Element"})
     aw: Optional[object] = field(default=None, metadata={"type": "Element"})
     am: dict[str, str] = field(default_factory=dict, metadata={"type": "Attributes", "namespace": "##any"})
+    wl: list[object] = field(default_factory=list, metadata={"type": "Wildcard", "namespace": "##other"})
 '''
 INST_RICH = {"__cls__": "Root", "fields": {
     "ident": {"__p__": "int", "v": -42}, "kind": {"__p__": "str", "v": "a b<&\u00e9"},
@@ -87,7 +88,12 @@ INST_RICH = {"__cls__": "Root", "fields": {
     "nd": None,
     "ne": [{"__cls__": "NilC", "fields": {"w": {"__p__": "str", "v": "x"}, "a": {"__p__": "int", "v": 3}}}],
     "av": {"__p__": "str", "v": " any  text "}, "aw": {"__p__": "str", "v": ""},
-    "am": {"__map__": {"zz": "v 1", "{urn:z}y": "a b", "aa": ""}}}}
+    "am": {"__map__": {"zz": "v 1", "{urn:z}y": "a b", "aa": ""}},
+    "wl": [{"__any__": {"qname": "{urn:other}w", "text": " some  text ", "tail": None, "attributes": {}, "children": []}},
+           {"__any__": {"qname": "{urn:other}deep", "text": "", "tail": None, "attributes": {"b": "2", "{urn:x}a": "1"},
+                        "children": [{"__any__": {"qname": "k", "text": "", "tail": None, "attributes": {}, "children": []}},
+                                     {"__any__": {"qname": "{urn:y}k", "text": "t", "tail": None, "attributes": {"a": "v"},
+                                                  "children": []}}]}}]}}
 WITNESS_NIL = G.HEADER + '''
 @dataclass
 class B:
@@ -226,7 +232,8 @@ Import ListNotations.
    values 0 / False, a nillable str list and a nillable str field holding None, written
    <nn xsi:nil="true"/>, a nillable field of class type holding an instance with content and another one
    holding None, a list of instances with content of a nillable class, two xs:anyType elements holding a str
-   and the empty str, an attribute map with three entries that are not in key order), class namespace urn:a, Meta.name *)
+   and the empty str, an attribute map with three entries that are not in key order, a wildcard list holding two generic
+   elements - one with text, one with attributes and nested generic children), class namespace urn:a, Meta.name *)
 '''
     txt += D("u_rich", "universe", rich["universe"])
     txt += D("root_rich", "cls", rich["root"])
@@ -362,6 +369,7 @@ GUARD_PREDS = {
     "in_guard_nillable_class": "fun k => negb (in_guard_w k && uses_nillable_class (rc_universe k))",
     "in_guard_anytype": "fun k => negb (in_guard_w k && uses_anytype (rc_universe k) (rc_cls k))",
     "in_guard_maps": "fun k => negb (in_guard_w k && uses_maps (rc_universe k) (rc_cls k))",
+    "in_guard_wild": "fun k => negb (in_guard_w k && uses_wildcard (rc_universe k) (rc_cls k))",
     "guard-oracle": "oracle_in_guard",
     "corr-generate-in-guard": "fun k => negb (in_guard_w k) || gen_agree k",
     "corr-parse-in-guard": "fun k => negb (in_guard_w k) || parse_agree k",
@@ -414,6 +422,7 @@ def guard_layer(ck, jobs, stats):
     stats["guard_inside_with_nillable_class"] = len(bad["in_guard_nillable_class"])
     stats["guard_inside_with_anytype_element"] = len(bad["in_guard_anytype"])
     stats["guard_inside_with_attribute_map"] = len(bad["in_guard_maps"])
+    stats["guard_inside_with_wildcard"] = len(bad["in_guard_wild"])
     stats["guard_inside_share"] = round(len(inside) / max(1, len(terms)), 3)
     stats["guard_skipped"] = skipped
     for cls in ("guard-oracle", "corr-generate-in-guard", "corr-parse-in-guard", "guard-theorem-instance",
@@ -883,7 +892,7 @@ def run(ck: Check):
     ck.cov["proved_slice"] = ("C01_roundtrip_S4 / C01_roundtrip_ordered_S5_partial: Attribute / Element / Text fields of primitive, enum or exact class type, optional, default, list, "
                               "tokens, list of token lists, nested classes (recursive class graphs, subclass instances with xsi:type), wrappers, sequence groups, "
                               "QName values, nillable fields (simple type: None or non-empty values; class type: None or instances with content), nillable classes "
-                              "(instances with content), xs:anyType elements holding a str, attribute maps (readings that keep the attribute order), namespaces; infoset "
+                              "(instances with content), xs:anyType elements holding a str, attribute maps and wildcard fields holding generic elements (readings that keep the attribute order), namespaces; infoset "
                               "level, every reading (attribute order, prefix maps, indentation) and, through C03, the printed document; everything else "
                               "(wrapped lists inside a sequence group, empty texts and instances without content in nillable positions, wildcards, compound fields, unions, below the "
                               "infoset) is covered by correspondence + oracle only")
